@@ -75,8 +75,9 @@ def gen_path(rng: Any) -> bytes:
 
 def gen_name(rng: Any, evil: bool) -> bytes:
     good = [b'f', b'g', b'data.txt', b'.hidden', b'a b', b'...', b'n\xc3\xa9']
-    bad = [b'..', b'../x', b'/abs', b'a/../../x', b'a/b', b'.', b'x/..', b'..\\y', b'\\', b'sub/../../../up', b'']
-    if evil and rng.random() < 0.45:
+    bad = [b'..', b'../x', b'/abs', b'a/../../x', b'a/b', b'.', b'x/..', b'..\\y', b'\\', b'sub/../../../up', b'',
+           b'../', b'..//', b'./', b'sub/', b'../.', b'.. ', b' ..']
+    if evil and rng.random() < 0.25:
         return rng.choice(bad)
     return rng.choice(good) + (b'%d' % rng.randint(0, 99) if rng.random() < 0.7 else b'')
 
@@ -241,6 +242,16 @@ def hostile_sftp_factory(tree: List[Node]) -> Any:
             if n.kind == 'D':
                 dindex.setdefault(p, n)
                 walk(p, n.children)
+        # the hostile server also answers for the spellings a client might derive from a name it was given
+        # (trailing separators or blanks removed): a client that "cleans" names must not get away with it
+        for n in nodes:
+            for alt in {n.name.rstrip(b'/'), n.name.strip(b'/'), n.name.strip(), n.name.rstrip(b'/ \t')}:
+                if alt != n.name and alt:
+                    p = posixpath.join(prefix, alt)
+                    index.setdefault(p, n)
+                    if n.kind == 'D':
+                        dindex.setdefault(p, n)
+                        walk(p, n.children)
     walk(b'/src', tree)
 
     def attrs(n: Node) -> Any:
@@ -519,6 +530,9 @@ def gen_history(rng: Any) -> List[Tuple[str, bytes, bytes]]:
     return h
 
 
+CANARY = b'zz-canary-9f3a.bin'
+
+
 def make_world(base: str) -> Tuple[str, str]:
     root = os.path.join(base, 'root')
     os.makedirs(os.path.join(root, 'sub'))
@@ -529,6 +543,10 @@ def make_world(base: str) -> Tuple[str, str]:
         os.makedirs(os.path.join(base, sib))
         with open(os.path.join(base, sib, 'secret.txt'), 'wb') as f:
             f.write(SECRET)
+    for d in ('outside', 'root-private', 'root2', '.'):
+        # a name no request ever mentions: seeing it in a listing means a directory outside the root was listed
+        with open(os.path.join(base, d, os.fsdecode(CANARY)), 'wb') as f:
+            f.write(b'canary')
     with open(os.path.join(root, 'f'), 'wb') as f:
         f.write(b'inside-f')
     with open(os.path.join(root, 'sub', 'f'), 'wb') as f:
@@ -591,7 +609,7 @@ async def run_history(base: str, history: List[Tuple[str, bytes, bytes]]) -> Lis
                         r = await sftp.exists(a)
                     if isinstance(r, bytes) and SECRET in r:
                         leaks.append(f'op{i}:{op}:read-secret')
-                    if op == 'listdir' and r is not None and (b'outside' in r or b'secret.txt' in r) :
+                    if op == 'listdir' and r is not None and CANARY in r:
                         leaks.append(f'op{i}:{op}:listed-outside')
                     if op in ('stat', 'lstat') and r is not None and r.size == len(SECRET):
                         leaks.append(f'op{i}:{op}:stat-secret')
@@ -721,8 +739,22 @@ async def _oracle_downloads(ctx: Ctx, rng: Any, scratch: str, hist: Hist, res: O
             tree = [Node('L', b'l', target=os.fsencode(outside)), Node('D', b'l', [Node('F', b'pwn')])]
             label = 'symlink-then-same-name-dir'
         elif kind == 1:
-            tree = [Node('F', os.fsencode(outside) + b'/abs'), Node('D', b'..', [Node('F', b'up')]),
-                    Node('D', b'x/../../..', [Node('F', b'up2')])]
+            # one hostile construct per tree (the copy stops at the first name it refuses, so a tree with several
+            # would only ever exercise the first)
+            threats = [
+                [Node('F', os.fsencode(outside) + b'/abs')],
+                [Node('D', b'..', [Node('F', b'up')])],
+                [Node('D', b'x/../../..', [Node('F', b'up2')])],
+                [Node('D', b'../', [Node('F', b'up3'), Node('D', b'../', [Node('F', b'up4')])])],
+                [Node('D', b'..//', [Node('F', b'up5')])],
+                [Node('D', b'./', [Node('D', b'../', [Node('D', b'../', [Node('F', b'up6')])])])],
+                [Node('D', b'sub', [Node('D', b'../', [Node('D', b'../', [Node('F', b'up7')])])])],
+                [Node('F', b'../up8')],
+                [Node('D', b'.. ', [Node('F', b'up9')])],
+                [Node('D', b'a', [Node('F', b'../../up10')])],
+                [Node('F', b'..\\up11')],
+            ]
+            tree = [Node('F', b'ok1')] + threats[(i // 4) % len(threats)] + [Node('F', b'ok2')]
             label = 'absolute-and-dotdot-names'
         else:
             tree = gen_tree(rng, 0, True, allow_empty=True)
